@@ -4,3 +4,7 @@ Theorem C11_meaning (p q : nat -> nat) : (forall x, q (p x) = x) -> forall n m f
   eval_f n f = Some b1 -> eval_f m (rename p f) = Some b2 -> forall s, beval s b2 = beval (fun x => s (p x)) b1.
 Proof. intros Hq n m f b1 b2. exact (C11_rename p q Hq n m f b1 b2). Qed.
 Print Assumptions C11_meaning.
+
+(** the hypothesis is satisfiable: swapping the ids 0 and 1 is its own inverse *)
+Example C11_instance : let p := fun x => match x with 0 => 1 | 1 => 0 | n => n end in forall x, p (p x) = x.
+Proof. intros p [|[|n]]; reflexivity. Qed.
